@@ -17,6 +17,7 @@ import (
 	"github.com/lmorg/murex/utils"
 	"github.com/lmorg/murex/utils/ansititle"
 	"github.com/lmorg/murex/utils/crash"
+	"github.com/lmorg/murex/utils/verifhook"
 )
 
 var (
@@ -217,6 +218,7 @@ func createProcess(p *Process, isMethod bool) {
 
 func executeProcess(p *Process) {
 	defer crash.Handler()
+	verifhook.Gate(p, "proc.exec")
 
 	testStates(p)
 
@@ -411,6 +413,7 @@ cleanUpProcess:
 		}
 	}
 
+	verifhook.Gate(p, "proc.waitprev")
 	for !p.Previous.HasTerminated() {
 		// Code shouldn't really get stuck here.
 		// This would only happen if someone abuses pipes on a function that has no stdin.
@@ -435,6 +438,7 @@ func destroyProcess(p *Process) {
 	// Make special case for `bg` because that doesn't wait.
 	if p.Name.String() != "bg" && !p.IsFork {
 		//debug.Json("destroyProcess (p.WaitForTermination <- false)", p.Dump())
+		verifhook.Gate(p, "proc.destroy")
 		p.WaitForTermination <- false
 	}
 
@@ -449,6 +453,7 @@ func deregisterProcess(p *Process) {
 	//debug.Json("deregisterProcess ()", p)
 
 	p.State.Set(state.Terminating)
+	verifhook.Gate(p, "proc.dereg")
 
 	p.Stdout.Close()
 	p.Stderr.Close()
@@ -459,6 +464,7 @@ func deregisterProcess(p *Process) {
 	}
 
 	go func() {
+		verifhook.Gate(p, "proc.dereg2")
 		p.State.Set(state.AwaitingGC)
 		GlobalFIDs.Deregister(p.Id)
 		if p.HasJobId.Get() {
